@@ -25,7 +25,7 @@ EXPLANATION = (
     "skip/stride/atom_indices/chunk dependence.")
 NOT_DECIDED = ["equality of the values read (run-time)", "the XDR offset arithmetic inside C", "efficient-striding seek path of xtc/trr beyond its structure"]
 ASSUMPTIONS = ["read_next_timestep / read_xtc / read_trr consume exactly one frame per successful call"]
-FLOORS = {"C02-R1": 30, "C02-R2": 8, "C02-R3": 3, "C02-R4": 20, "C02-R5": 15, "C02-R6": 7, "C02-R7": 8, "C02-R8": 27}
+FLOORS = {"C02-R1": 30, "C02-R2": 3, "C02-R3": 3, "C02-R4": 20, "C02-R5": 15, "C02-R6": 7, "C02-R7": 8, "C02-R8": 38}
 
 LOADERS = {  # ext -> class key
     ".xtc": "xtc", ".trr": "trr", ".dcd": "dcd", ".dtr": "dtr", ".h5": "h5", ".nc": "nc", ".mdcrd": "mdcrd", ".xyz": "xyz",
@@ -151,6 +151,7 @@ def check(ctx):
     _r9_whole_file_loaders(ctx)
     _r10_xdr_readers(ctx)
     _r11_array_store_readers(ctx)
+    _r12_dcd_reader(ctx)
 
 
 # ---------------------------------------------------------------------------------------------
@@ -325,8 +326,8 @@ def _rat_by_evaluation(ctx):
 
 # ---------------------------------------------------------------------------------------------
 def _r2(ctx):
-    # the text formats xyz, mdcrd, lammpstrj, gro: decided by value in R8 (read() evaluated on a model file)
-    for key in ["h5", "nc", "xtc", "trr", "dcd", "dtr", "arc", "lh5"]:
+    # decided by value instead: xyz, mdcrd, lammpstrj, gro, h5, nc, dcd in R8 (read() evaluated on a model file), xtc / trr in R3 (_read on a model file)
+    for key in ["dtr", "arc", "lh5"]:
         rel, cls = F.rel_cls(key)
         mname = "_read" if key in ("xtc", "trr") else "read"
         fn = F.method(ctx, key, mname)
@@ -727,6 +728,7 @@ def _r8_text_readers(ctx):
     seqs = [
         ("strided reads continue where the last one stopped", [("read", dict(n_frames=2, stride=2)), ("read", dict(n_frames=1)), ("read", dict(stride=3))]),
         ("n_frames counts frames returned", [("read", dict(n_frames=3, stride=3)), ("read", dict())]),
+        ("single strided frames (iterload chunk=1)", [("read", dict(n_frames=1, stride=2)), ("read", dict(n_frames=1, stride=2)), ("read", dict(n_frames=1, stride=3)), ("read", dict())]),
         ("atom selection of strided frames", [("read", dict(stride=2, atom_indices=[2, 0]))]),
         ("seek, then read", [("seek", 5), ("read", dict()), ("seek", 1), ("read", dict(n_frames=2, stride=2)), ("tell", None)]),
     ]
@@ -982,6 +984,7 @@ def _r11_array_store_readers(ctx):
     seqs = [
         ("strided reads continue where the last one stopped", [("read", dict(n_frames=2, stride=2)), ("read", dict(n_frames=1)), ("read", dict(stride=3)), ("read", dict())]),
         ("n_frames counts frames returned", [("read", dict(n_frames=3, stride=3)), ("read", dict())]),
+        ("single strided frames (iterload chunk=1)", [("read", dict(n_frames=1, stride=2)), ("read", dict(n_frames=1, stride=2)), ("read", dict(n_frames=1, stride=3)), ("read", dict())]),
         ("atom selection of strided frames", [("read", dict(stride=2, atom_indices=[2, 0]))]),
         ("seek, then read", [("seek", 5), ("read", dict()), ("seek", 1), ("read", dict(n_frames=2, stride=2)), ("tell", None)]),
     ]
@@ -1167,3 +1170,67 @@ def _iterload_by_evaluation(ctx):
                     seen.add(k_)
                     uniq.append(p_)
             ctx.decide(not problems, "C02-R6", fn, TRAJ, "iterload", desc, "", "; ".join(uniq[:3]))
+
+
+# ---------------------------------------------------------------------------------------------
+def _r12_dcd_reader(ctx):
+    """DCDTrajectoryFile.read / seek / tell (Cython, desugared) evaluated on a model DCD file (sa/dcdmodel.py) of 7 frames written by the class's own write():
+    sequences of calls return the frames, atoms and cell rows of the definition and leave the read position at the end of the window consumed."""
+    from .. import dcdmodel as D, writers as W
+    from ..tensym import Ten, Raised
+    from ..pysym import Unsupported as PUnsupported
+    NF, NA = 7, 4
+    rel, cls = F.rel_cls("dcd")
+    rfn = F.method(ctx, "dcd", "read")
+    q = cls + ".read"
+    seqs = [
+        ("strided reads continue where the last one stopped", [("read", dict(n_frames=2, stride=2)), ("read", dict(n_frames=1)), ("read", dict(stride=3)), ("read", dict())]),
+        ("n_frames counts frames returned", [("read", dict(n_frames=3, stride=3)), ("read", dict())]),
+        ("single strided frames (iterload chunk=1)", [("read", dict(n_frames=1, stride=2)), ("read", dict(n_frames=1, stride=2)), ("read", dict(n_frames=1, stride=3)), ("read", dict())]),
+        ("atom selection of strided frames", [("read", dict(stride=2, atom_indices=[2, 0]))]),
+        ("seek, then read", [("seek", 5), ("read", dict()), ("seek", 1), ("read", dict(n_frames=2, stride=2)), ("tell", None)]),
+    ]
+    for title, seq in seqs:
+        desc = "%s: %s" % (title, ", ".join("%s(%s)" % (m_, ", ".join("%s=%s" % kv for kv in a_.items()) if isinstance(a_, dict) else ("" if a_ is None else a_)) for m_, a_ in seq))
+        try:
+            x, L, A = Ten.sym("x", (NF, NA, 3)), Ten.sym("L", (NF, 3)), Ten.sym("A", (NF, 3))
+            df = D.DcdFile()
+            D.call(ctx, df, D.file_object(ctx, df, "w"), "write", assume=W.assume, xyz=x, cell_lengths=L, cell_angles=A)
+            me = D.file_object(ctx, df, "r")
+            P, why = 0, []
+            for m_, a_ in seq:
+                if m_ == "seek":
+                    D.call(ctx, df, me, "seek", assume=W.assume, offset=a_)
+                    P = a_
+                    continue
+                if m_ == "tell":
+                    t_ = ctx_pyval(D.call(ctx, df, me, "tell"))
+                    if t_ != P:
+                        why.append("tell() is %s after the position has reached frame %d" % (t_, P))
+                    continue
+                n_, s_ = a_.get("n_frames"), a_.get("stride") or 1
+                want = [f_ for f_ in range(P, NF, s_)]
+                if n_ is not None:
+                    want = want[:n_]
+                sel = a_.get("atom_indices")
+                atoms = sel if sel is not None else list(range(NA))
+                got = D.call(ctx, df, me, "read", assume=W.assume, **a_)
+                xyz, cl, ca = got
+                exp = [x.data[(f_ * NA + at_) * 3 + k_] for f_ in want for at_ in atoms for k_ in range(3)]
+                if not (isinstance(xyz, Ten) and xyz.shape[0] == len(want) and len(xyz.data) == len(exp) and all(_same(p_, q_) for p_, q_ in zip(xyz.data, exp))):
+                    first = [repr(xyz.data[i_ * len(atoms) * 3]).split("[")[1].split(",")[0] for i_ in range(xyz.shape[0])] if isinstance(xyz, Ten) and xyz.ndim == 3 and xyz.shape[1:] == (len(atoms), 3) else getattr(xyz, "shape", xyz)
+                    why.append("read(%s) at frame %d returns frames %s, the definition is %s" % (", ".join("%s=%s" % kv for kv in a_.items()), P, first, want))
+                elif want:
+                    for nm, arr, src_ in (("lengths", cl, L), ("angles", ca, A)):
+                        expc = [src_.data[f_ * 3 + k_] for f_ in want for k_ in range(3)]
+                        if not (isinstance(arr, Ten) and arr.shape[0] == len(want) and all(_same(p_, q_) for p_, q_ in zip(arr.data, expc))):
+                            why.append("the cell %s returned are not those of frames %s" % (nm, want))
+                P = min(NF, P + (n_ * s_ if n_ is not None else NF))
+                if df.fh.setsread != P:
+                    why.append("the read position is %s after the read, the window consumed ends at %d" % (df.fh.setsread, P))
+                    P = df.fh.setsread
+            ctx.decide(not why, "C02-R8", rfn, rel, q, desc, "", "; ".join(why[:2]))
+        except Raised as e:
+            ctx.violated("C02-R8", rfn, rel, q, desc, "refused: %s" % (e.exc or e))
+        except PUnsupported as e:
+            ctx.undecided("C02-R8", rfn, rel, q, desc, "not evaluable: %s" % e)
